@@ -10,7 +10,11 @@ CONSTANT Which
 MC_ClockT == 7
 
 PredsAll == {"true", "false", "has_a", "has_b", "a_is_1", "a_is_11", "two_props",
-             "ext_none", "ext_point", "ext_range", "ext_clock"}
+             "ext_none", "ext_point", "ext_range", "ext_clock", "ext_inverted"}
+\* a smaller set for the entry points added later
+PredsFew == {"has_a", "a_is_11", "two_props", "ext_clock", "ext_range", "ext_inverted", "ext_empty"}
+\* predicates that do not look at the extent (the only ones a span guard's filter may use)
+PredsNoExt == {"true", "false", "has_a", "a_is_1", "a_is_11", "two_props"}
 \* for the filter of a nested runtime
 PredsNested == {"true", "false", "has_a", "a_is_11", "a_is_1", "two_props", "ext_none", "ext_clock", "ext_9"}
 
@@ -82,11 +86,12 @@ ET3(b) ==
 KV(k, v) == [k |-> k, v |-> v]
 Owns == {<<>>, <<KV("a", 1)>>, <<KV("b", 1)>>, <<KV("a", 1), KV("a", 2)>>, <<KV("a", 1), KV("b", 2)>>}
 Ambients == {<<>>, <<KV("a", 11)>>, <<KV("b", 11)>>, <<KV("b", 11), KV("a", 12)>>}
-Extents == {NoExtent, Point(5), [kind |-> "range", a |-> 3, b |-> 5]}
+\* the extent as an input class: absent, point, forward range, empty range, inverted range
+Extents == {NoExtent, Point(5), Range(3, 5), Range(5, 5), Range(5, 3)}
 Clocks == {None, MC_ClockT}
 
 Config(own, x, am, cl, rtf, csf, em, entry) ==
-    [own |-> own, extent |-> x, ambient |-> am, clock |-> cl, rtf |-> rtf, csf |-> csf,
+    [own |-> own, extent |-> x, ambient |-> am, clock |-> cl, clock2 |-> cl, rtf |-> rtf, csf |-> csf,
      em |-> em, entry |-> entry]
 
 \* A scenario is a record of parameters; ScenSet turns it into configurations.
@@ -120,12 +125,26 @@ ScenSet(s) ==
                 cl \in Clocks,
                 e \in {ELeaf(2), [op |-> "and", l |-> ELeaf(2), r |-> [op |-> "wrapfn", kind |-> "prepend", t |-> ELeaf(3)]],
                        [op |-> "wrap", f |-> FLeaf("a_is_11", 205), t |-> ELeaf(2)]}}
+      \* G: span guards: the clock's two readings forward / equal / backwards / no clock, filters
+      \*    that do not look at the extent, a destination behind a wrapping that does
+      [] s.kind = "G" ->
+            {[Config(o, NoExtent, am, cl, FLeaf(s.p, 1), Absent, e, s.entry) EXCEPT !.clock2 = c2] :
+                o \in (IF s.entry = "span_macro" THEN {<<>>} ELSE {<<>>, <<KV("a", 1)>>}),
+                am \in {<<>>, <<KV("a", 11)>>}, cl \in Clocks, c2 \in {3, 7, 9},
+                e \in {ELeaf(1),
+                       [op |-> "and", l |-> ELeaf(1),
+                        r |-> [op |-> "wrap", f |-> FLeaf(s.wp, 205), t |-> ELeaf(2)]]}}
       [] s.kind = "D" ->
             {Config(s.own, Point(5), s.amb, MC_ClockT, FLeaf(s.p, 1), Absent, e, s.entry) :
                 e \in (IF s.d = 3 THEN ET3(0) ELSE ET(s.d, 0))}
 
-MacroEntries == {"macro", "macro_evt"}
-AllEntries == Pipeline \cup {"direct"}
+MacroEntries == {"macro", "macro_evt", "macro_lvl", "evt_macro"}
+AllEntries == (Pipeline \ SpanGuards) \cup {"direct"}
+NewEntries == {"macro_lvl", "evt_macro", "span_evt", "metric_evt"}
+
+ScensG ==
+    {[kind |-> "G", p |-> p, wp |-> wp, entry |-> en] :
+        p \in PredsNoExt, wp \in {"ext_inverted", "ext_empty", "ext_range"}, en \in SpanGuards}
 
 ScensE(Preds, Entries) ==
     {[kind |-> "E", p |-> p, entry |-> en, cs |-> FALSE] : p \in Preds, en \in Entries}
@@ -142,9 +161,11 @@ ScensR(Entries) ==
         p \in PredsNested, am \in {<<>>, <<KV("a", 21)>>, <<KV("b", 21)>>}, cl \in {None, 9}, en \in Entries}
 
 ScensD(d, Entries) ==
-    {[kind |-> "D", d |-> d, own |-> o, amb |-> am, p |-> p, entry |-> en] :
-        o \in {<<>>, <<KV("a", 1)>>}, am \in {<<>>, <<KV("a", 11)>>}, p \in {"true", "false"},
-        en \in Entries}
+    \* (new_span! takes its properties at compile time: no own properties there)
+    {sc \in {[kind |-> "D", d |-> d, own |-> o, amb |-> am, p |-> p, entry |-> en] :
+                o \in {<<>>, <<KV("a", 1)>>}, am \in {<<>>, <<KV("a", 11)>>}, p \in {"true", "false"},
+                en \in Entries} :
+        sc.entry = "span_macro" => sc.own = <<>>}
 
 ScensFor(w) ==
     CASE w = "tiny" ->
@@ -153,14 +174,17 @@ ScensFor(w) ==
             \cup ScensD(1, {"rt", "direct"})
       [] w = "quick" ->
             ScensE(PredsAll, {"rt", "macro", "macro_evt", "direct"})
-            \cup ScensE({"has_a", "a_is_11", "ext_clock"}, {"core", "rt_as_emitter"})
+            \cup ScensE(PredsFew, {"core", "rt_as_emitter"} \cup NewEntries)
+            \cup ScensG
             \cup ScensF({"true", "false"}, 2, {<<>>}, {"rt", "macro"})
             \cup ScensF({"true", "false", "has_b", "ext_clock"}, 1, {<<>>, <<KV("b", 11)>>}, {"core", "macro_evt"})
             \cup ScensD(2, {"rt", "direct", "macro"})
-            \cup ScensD(1, {"macro_evt", "core", "rt_as_emitter"})
+            \cup ScensD(1, {"macro_evt", "core", "rt_as_emitter"} \cup NewEntries \cup SpanGuards)
             \cup ScensR({"rt", "direct"})
       [] w = "thorough" ->
-            ScensE(PredsAll, AllEntries)
+            ScensE(PredsAll \cup {"ext_empty"}, AllEntries)
+            \cup ScensG
+            \cup ScensD(1, SpanGuards)
             \cup ScensF({"true", "false", "has_b"}, 2, {<<>>, <<KV("b", 11)>>}, {"rt", "macro", "macro_evt"})
             \cup ScensF(PredsAll, 1, {<<>>, <<KV("b", 11)>>}, {"core", "rt_as_emitter", "macro"})
             \cup ScensF({"true", "false"}, 3, {<<>>}, {"rt"})
